@@ -96,6 +96,10 @@ func runC04(c *vkit.Ctx, i int, h *History, om onMode) {
 	r := c.Rand("run", i)
 	s := NewSess("c04")
 	defer s.Close()
+	if i%4 == 3 {
+		s.Sub = SubDirs[(i/4)%len(SubDirs)]
+		c.Count("sessions_whose_snapshot_directory_does_not_exist_yet", 1)
+	}
 	s.ShareConfigs = i%2 == 0
 	s.ZeroConfigs = i%4 == 1
 	if s.ShareConfigs {
